@@ -13,7 +13,8 @@
    own len() reports (third component of V_pairs, filled in by the harness from
    the Go len()) is at least the length of what its pack() returns. *)
 From Dns Require Import Gen.Layouts Gen.Lens Gen.Registry.
-From Dns Require Import Model.Msg Proofs.LenFieldProofs Proofs.LenRRProofs Proofs.LenMsgProofs.
+From Dns Require Import Model.Msg Proofs.LenFieldProofs Proofs.LenRRProofs Proofs.LenMsgProofs Proofs.LenRoomProofs
+  Proofs.LenCompressProofs Proofs.LenCompressMsgProofs Proofs.LenWitnessProofs.
 Open Scope list_scope.
 Open Scope N_scope.
 
@@ -132,6 +133,99 @@ Theorem packbuffer_uses_callers_buffer_iff_longer :
 Proof. exact pack_buffer_uses_callers_buffer. Qed.
 Print Assumptions packbuffer_uses_callers_buffer_iff_longer.
 
+(* the error-class form: for any caller buffer, compressed or not, Pack never
+   panics (pointer write, RDLENGTH patch), never exhausts a budget, never
+   reports class buf, and reports class overflow only for an address field of
+   the wrong length ([msg_addr_okb m]: A / gateway addresses of 0, 4 or 16
+   octets, AAAA addresses of 0 or 16) *)
+Theorem pack_never_fails_for_lack_of_space :
+  forall (m : msg) (buflen : N),
+    msg_okb m = true -> msg_addr_okb m = true ->
+    match pack_msg_buf m buflen with
+    | Ok _ => True
+    | Err e => e <> "buf"%string /\ e <> "overflow"%string
+    | Panic => False
+    | OutOfFuel => False
+    end.
+Proof. exact pack_never_fails_for_space. Qed.
+Print Assumptions pack_never_fails_for_lack_of_space.
+
+(* ---------------- with compression ---------------- *)
+(* [msg_okb2]: as msg_okb, with the stricter alignment that also forbids a
+   trailing len() term without a pack statement (a name that len() would walk and
+   pack() would not write); the tables satisfy it too *)
+Theorem every_type_is_strictly_aligned :
+  forallb (fun L => kind_ok2 (base_kind (tl_name L))) layouts = true /\
+  forall t : N, kind_ok2 (kind_of_type t) = true.
+Proof. split; [exact tables_aligned2|exact kind_of_type_ok2]. Qed.
+Print Assumptions every_type_is_strictly_aligned.
+
+(* one name, both walks.  [Jc cm ls P]: every suffix in the length walk's set ls
+   is a key of the packer's map cm, and cm is closed: the later suffixes of a
+   key are keys too unless the write offset P has reached 16384.  A name packed
+   at offset P and measured at an offset L >= P (compress flags cpP, cpL with
+   cpL -> cpP): domainNameLen's result is at least the octets written and the
+   invariant holds afterwards *)
+Theorem compressed_name_len_never_underestimates :
+  forall (s : bytes) (cap : N) (cpP cpL : bool) (st : pn_state) (cm : cmap) (ls : lset) (L n : N)
+         (c' : option lset) (st' : pn_state),
+    pn_cm st = Some cm -> Jc cm ls (lenN (pn_out st)) -> lenN (pn_out st) <= L ->
+    (cpL = true -> cpP = true) ->
+    pack_name s cap cpP st = Ok st' ->
+    domain_name_len s L (Some ls) cpL = (n, c') ->
+    exists cm' ls', pn_cm st' = Some cm' /\ c' = Some ls' /\
+      lenN (pn_out st') <= lenN (pn_out st) + n /\ Jc cm' ls' (lenN (pn_out st')).
+Proof. exact name_joint. Qed.
+Print Assumptions compressed_name_len_never_underestimates.
+
+(* Msg.Len() >= len(Pack()) for a message packed WITH compression (the length
+   walk's simulated compression never finds a suffix the packer does not) *)
+Theorem msg_len_never_underestimates_compressed :
+  forall (m : msg) (w : bytes),
+    msg_okb2 m = true -> msg_compress m = true -> pack_msg m = Ok w -> lenN w <= msg_len m.
+Proof. exact msg_len_ge_pack_compressed. Qed.
+Print Assumptions msg_len_never_underestimates_compressed.
+
+(* the first clause of C08 in full: under the message's own compression setting *)
+Theorem msg_len_never_underestimates :
+  forall (m : msg) (w : bytes), msg_okb2 m = true -> pack_msg m = Ok w -> lenN w <= msg_len m.
+Proof. exact msg_len_ge_pack. Qed.
+Print Assumptions msg_len_never_underestimates.
+
+(* ---------------- the hypotheses cannot be dropped ---------------- *)
+(* exactness needs off < len(msg): packRR into a full buffer writes nothing for a
+   record without RDATA, reports success, and overwrites the two octets before
+   the offset *)
+Theorem exactness_fails_in_a_full_buffer :
+  rr_plain w_any = true /\
+  pack_rr w_any 5 false {| pn_out := [1; 2; 3; 4; 5]; pn_cm := None |}
+    = Ok {| pn_out := [1; 2; 3; 0; 0]; pn_cm := None |} /\
+  rr_len w_any = 13.
+Proof. exact rr_len_exact_full_buffer_refuted. Qed.
+Print Assumptions exactness_fails_in_a_full_buffer.
+
+(* rr_okb (a): a record has to carry its base kind *)
+Theorem embedding_kind_is_not_a_kind :
+  rr_okb w_cds = false /\ rr_len w_cds = 13 /\
+  (exists st', pack_rr w_cds 100 false {| pn_out := []; pn_cm := None |} = Ok st' /\ lenN (pn_out st') = 21) /\
+  base_kind "CDS" = "DS"%string.
+Proof. exact rr_len_embedding_kind_refuted. Qed.
+Print Assumptions embedding_kind_is_not_a_kind.
+
+(* rr_okb (b): an option whose len() is short makes Len(rr) short *)
+Theorem option_len_must_cover_option_pack :
+  rr_okb w_opt = false /\ rr_len w_opt = 15 /\
+  (exists st', pack_rr w_opt 100 false {| pn_out := []; pn_cm := None |} = Ok st' /\ lenN (pn_out st') = 23).
+Proof. exact rr_len_option_len_refuted. Qed.
+Print Assumptions option_len_must_cover_option_pack.
+
+(* msg_addr_okb: class overflow with all the room in the world *)
+Theorem overflow_is_also_a_semantic_class :
+  msg_okb (w_msg [w_bad_a]) = true /\ msg_len (w_msg [w_bad_a]) = 29 /\
+  pack_msg_buf (w_msg [w_bad_a]) 4096 = Err "overflow"%string.
+Proof. exact overflow_class_with_room_refuted. Qed.
+Print Assumptions overflow_is_also_a_semantic_class.
+
 (* ---------------- non-vacuity ---------------- *)
 Definition ex_mx : rr :=
   {| rr_name := bytes_of_string "example.org."; rr_type := 15; rr_class := 1; rr_ttl := 3600; rr_rdlength := 0;
@@ -167,15 +261,30 @@ Example ex_msg_hypotheses :
   msg_len (ex_msg false) = 123 /\ msg_len (ex_msg true) = 90 /\
   (exists w, pack_msg_buf (ex_msg true) 200 = Ok (w, true)) /\ (exists w, pack_msg_buf (ex_msg true) 100 = Ok (w, false)).
 Proof. vm_compute. repeat split; try reflexivity; eexists; reflexivity. Qed.
-(* an error that does come out with plenty of room (a 5-octet address in an A record) *)
-Definition ex_bad_a : rr :=
-  {| rr_name := bytes_of_string "a."; rr_type := 1; rr_class := 1; rr_ttl := 0; rr_rdlength := 0;
-     rr_kind := "A"; rr_data := [("A"%string, V_b [1; 2; 3; 4; 5])] |}.
-Example ex_error_hypotheses :
-  msg_okb {| m_id := 0; m_response := false; m_opcode := 0; m_aa := false; m_tc := false; m_rd := false; m_ra := false;
-             m_z := false; m_ad := false; m_cd := false; m_rcode := 0; m_compress := false;
-             m_question := []; m_answer := [ex_bad_a]; m_ns := []; m_extra := [] |} = true /\
-  pack_msg_buf {| m_id := 0; m_response := false; m_opcode := 0; m_aa := false; m_tc := false; m_rd := false; m_ra := false;
-             m_z := false; m_ad := false; m_cd := false; m_rcode := 0; m_compress := false;
-             m_question := []; m_answer := [ex_bad_a]; m_ns := []; m_extra := [] |} 4096 = Err "overflow"%string.
-Proof. vm_compute. split; reflexivity. Qed.
+(* a compressed message whose names share suffixes, one of them escaped, and a
+   gateway host name that the packer enters in its map but len() does not walk *)
+Definition ex_ns (nm tgt : string) : rr :=
+  {| rr_name := bytes_of_string nm; rr_type := 2; rr_class := 1; rr_ttl := 60; rr_rdlength := 0;
+     rr_kind := "NS"; rr_data := [("Ns"%string, V_s (bytes_of_string tgt))] |}.
+Definition ex_ipseckey : rr :=
+  {| rr_name := bytes_of_string "k.example.org."; rr_type := 45; rr_class := 1; rr_ttl := 60; rr_rdlength := 0;
+     rr_kind := "IPSECKEY";
+     rr_data := [("Precedence"%string, V_n 1); ("GatewayType"%string, V_n 3); ("Algorithm"%string, V_n 2);
+                 ("GatewayAddr"%string, V_b []); ("GatewayHost"%string, V_s (bytes_of_string "gw.example.org."));
+                 ("PublicKey"%string, V_enc [1; 2; 3])] |}.
+Definition ex_cmsg : msg :=
+  {| m_id := 7; m_response := true; m_opcode := 0; m_aa := true; m_tc := false; m_rd := false; m_ra := false;
+     m_z := false; m_ad := false; m_cd := false; m_rcode := 0; m_compress := true;
+     m_question := [{| q_name := bytes_of_string "example.org."; q_type := 2; q_class := 1 |}];
+     m_answer := [ex_ns "example.org." "ns1.example.org."; ex_ns "example.org." "a\.b.ns.example.org."; ex_mx];
+     m_ns := [ex_ipseckey]; m_extra := [ex_txt; ex_ns "gw.example.org." "example.org."] |}.
+Example ex_cmsg_hypotheses :
+  msg_okb2 ex_cmsg = true /\ msg_okb ex_cmsg = true /\ msg_addr_okb ex_cmsg = true /\ msg_compress ex_cmsg = true /\
+  msg_okb2 (ex_msg false) = true /\ msg_addr_okb (ex_msg true) = true /\
+  (exists w, pack_msg ex_cmsg = Ok w /\ lenN w = 179) /\ msg_len ex_cmsg = 182 /\ msg_len_with ex_cmsg None = 292.
+Proof. vm_compute. repeat split; try reflexivity. eexists. split; reflexivity. Qed.
+Example ex_jc_hypotheses :
+  Jc [] [] 12 /\
+  is_ok (pack_name (bytes_of_string "www.example.org.") 100 true
+           {| pn_out := [0;0;0;0;0;0;0;0;0;0;0;0]; pn_cm := Some [] |}) = true.
+Proof. split; [|reflexivity]. split; [intros k []|]. intros X Z HX. exfalso. apply HX. reflexivity. Qed.
